@@ -262,7 +262,10 @@ def main():
     locked = set(lock.get(prop, []))
     proved = [r for r in res if r['status'] == 'proved']
     unproved = [r for r in res if r['status'] != 'proved']
-    vacuous = [dict(name=k) for k in vacuous_groups(cres)]
+    # a function with an unproved safety obligation legitimately has contradictory hypotheses downstream (every safety condition is
+    # assumed once it has been demanded): vacuity is a checker error only for functions whose obligations were all discharged
+    unproved_fns = {r['fn'] for r in unproved}
+    vacuous = [dict(name=k) for k in vacuous_groups(cres) if k.split(':', 1)[-1].split('/')[0].split('[')[0] not in unproved_fns]
     disagree = [r for r in res if r.get('disagree')]
     if a.relock:
         lock[prop] = sorted(r['name'] for r in proved)
